@@ -117,8 +117,13 @@ func GenC47(r *simcore.Rand, tier string) any {
 			op.K, op.N = "jump", r.Range(1, 90)
 		case 6:
 			op.K = "crash"
-			if r.Bool(0.5) {
+			switch r.Pick(3, 3, 2, 1) {
+			case 1:
 				op.N = r.Range(1, 6)
+			case 2:
+				op.N = -1
+			case 3:
+				op.N = -2
 			}
 		}
 		p.Ops = append(p.Ops, op)
